@@ -189,6 +189,7 @@ type encCtx struct {
 	opcode  string
 	sizedPos token.Pos
 	sizes   []sizeItem // what is placed into the tracked buffers, in order (for the size rule)
+	inlineDepth int
 }
 
 // sizeItem: a constant number of bytes, the length of an expression (atom), or a repetition.
@@ -738,9 +739,93 @@ func (c *encCtx) walkExpr(e ast.Expr) {
 			c.toks = append(c.toks, toks...)
 			return false
 		}
+		if c.inlineRecordHelper(ce) {
+			return false
+		}
 		c.specialCall(ce)
 		return true
 	})
+}
+
+// inlineRecordHelper: the encoder hands the record it is encoding to an unexported method of its own receiver type
+// (encode the header / write the body / ...): the helper's statements are walked in place. Byte-slice parameters that
+// receive a tracked buffer become tracked buffers, struct parameters that receive the record denote the record.
+func (c *encCtx) inlineRecordHelper(ce *ast.CallExpr) bool {
+	g := c.g
+	fn := g.calleeOf(ce)
+	if fn == nil || fn.Exported() || c.inlineDepth >= 3 {
+		return false
+	}
+	fd := g.decls[fn]
+	if fd == nil || fd.Body == nil || fd.Recv == nil || c.fd == nil || c.fd.Recv == nil || fd == c.fd {
+		return false
+	}
+	if nt1, _ := structOf(g.info.TypeOf(fd.Recv.List[0].Type)); nt1 == nil {
+		return false
+	} else if nt2, _ := structOf(g.info.TypeOf(c.fd.Recv.List[0].Type)); nt2 == nil || nt1.Obj() != nt2.Obj() {
+		return false
+	}
+	sig, _ := fn.Type().(*types.Signature)
+	if sig == nil || isSizer(g, fd) {
+		return false
+	}
+	if sig.Params().Len() == 3 {
+		if nt, ok := sig.Params().At(1).Type().(*types.Named); ok && nt.Obj().Name() == "OpCode" {
+			return false // the framing helper
+		}
+	}
+	// the record must be passed along
+	passesRecord := false
+	for _, a := range ce.Args {
+		if id, ok := stripParenConv(g, a).(*ast.Ident); ok && c.recObjs[g.info.ObjectOf(id)] {
+			passesRecord = true
+		}
+	}
+	if !passesRecord {
+		return false
+	}
+	var addedBufs []string
+	var addedRecs []types.Object
+	if len(fd.Recv.List[0].Names) == 1 {
+		rn := fd.Recv.List[0].Names[0].Name
+		if _, st := structOf(g.info.TypeOf(fd.Recv.List[0].Type)); st != nil {
+			for i := 0; i < st.NumFields(); i++ {
+				if isByteSliceType(st.Field(i).Type()) && !c.bufs[rn+"."+st.Field(i).Name()] {
+					c.bufs[rn+"."+st.Field(i).Name()] = true
+					addedBufs = append(addedBufs, rn+"."+st.Field(i).Name())
+				}
+			}
+		}
+	}
+	idx := 0
+	for _, fl := range fd.Type.Params.List {
+		for _, nm := range fl.Names {
+			obj := g.info.ObjectOf(nm)
+			if idx < len(ce.Args) {
+				arg := ce.Args[idx]
+				if isByteSliceType(obj.Type()) && c.bufs[bufRoot(arg)] && !c.bufs[nm.Name] {
+					c.bufs[nm.Name] = true
+					addedBufs = append(addedBufs, nm.Name)
+				}
+				if id, ok := stripParenConv(g, arg).(*ast.Ident); ok && c.recObjs[g.info.ObjectOf(id)] && !c.recObjs[obj] {
+					c.recObjs[obj] = true
+					addedRecs = append(addedRecs, obj)
+				}
+			}
+			idx++
+		}
+	}
+	c.collectLocals(fd.Body)
+	c.inlineDepth++
+	c.walkBlock(fd.Body.List)
+	c.inlineDepth--
+	for _, b := range addedBufs {
+		delete(c.bufs, b)
+	}
+	for _, o := range addedRecs {
+		delete(c.recObjs, o)
+	}
+	return true
 }
 
 // specialCall handles writer-level calls: ensureSized, writeRecord, direct sink writes of record payloads.
